@@ -38,6 +38,17 @@ Theorem c12_theta_spec_roundtrip_v4 :
   forall sh a, abs_okb a = true -> expressible V4 a = true -> dec_spec sh (enc_v4 a) = Some a.
 Proof. exact spec_roundtrip_v4. Qed.
 
+(* ... for every variant (serVer 1 and 2 included) *)
+Theorem c12_theta_spec_roundtrip :
+  forall sh v a, abs_okb a = true -> expressible v a = true -> a_seed_hash a = sh ->
+  dec_spec sh (enc_spec v a) = Some a.
+Proof. exact spec_roundtrip. Qed.
+
+(* the sequential reading of the bit stream (what dec_spec executes) is the positional one *)
+Theorem c12_theta_fields_seq_field :
+  forall cnt w bs, (cnt * w <= 8 * length bs)%nat -> fields_seq cnt w (bits_of bs) = map (field w bs) (seq 0 cnt).
+Proof. exact fields_seq_field. Qed.
+
 (* layout_glue: the constants the crate uses (re-read from the source on this run) are the specification's *)
 Theorem c12_theta_constants :
   S_MAX_THETA = MAX_THETA /\ S_FAMILY_THETA = zN Gen.GenCodec.FAMILY_THETA_ID /\
